@@ -102,6 +102,10 @@ def judge(t):
             V('C08.1-closure', '%s is in the import closure but has no entry in the result' % n, what='not-reported')
         if n not in looked and n not in coparsed:
             V('C08.1-closure', '%s is in the import closure but was never looked up' % n, what='not-looked-up')
+    # a module that was loaded (its file went through in full) is there: it is not reported missing
+    for m, (a_, _ast) in sorted(winners.items()):
+        if str(R.get(m)) == 'missing':
+            V('C08.1-closure', 'module %s was loaded from source %d (in the file fetched for %s) yet it is reported missing' % (m, a_['src'], a_['name']), what='loaded-but-missing')
     # ground truth: the imports the text declares are the ones that get followed
     for a in attempts:
         for (m, ast, mi) in a['mods']:
